@@ -3,7 +3,8 @@ C20 - store lock discipline and identifier allocation under concurrent use (DESI
 
 case (a) {"kind": "seq", "fl": flavour, "ops": [op, ...]}                      single-thread fault sequences
 case (b) {"kind": "conc", "fl": flavour, "threads": [[op, ...], ...], "preempt": [[global step, thread], ...]}
-ops: ["import", gid, desc index], ["import_bad", gid] (a node without NodeID), ["add_node", gid, node id],
+ops: ["import", gid, desc index], ["import_direct", gid, desc index] (JSON with gaps in its integer node keys),
+     ["import_bad", gid] (a node without NodeID), ["add_node", gid, node id],
      ["clone", src, dst], ["delete", gid], ["delete_imp", gid], ["extract", gid], ["delete_all"]
 (a) after every call: lock free, acquisitions == releases, no lock error, the next call is not blocked.
 (b) the harness owns the schedule (engines/sched.py: cooperative lock, preemption at every source line of the two
@@ -21,7 +22,7 @@ from fimverif.props.c04 import make_text, desc_content
 ID = "C20"
 RULE = ("(a) Single-thread sequences of 1-15 store calls incl. failing ones (imports lacking NodeIDs, duplicate graph "
         "ids, delete-then-reimport, delete/extract of a missing graph, node adds, clone, delete-all) on both store "
-        "flavours: all sequences of length <=2 (quick) / <=3 (thorough) over a 14-operation alphabet plus "
+        "flavours: all sequences of length <=2 (quick) / <=3 (thorough) over a 15-operation alphabet plus "
         "Hypothesis-generated longer ones. (b) 2-3 threads x 1-3 store operations with the harness owning the schedule "
         "(preemption at every source line of the store files): every single preemption point x target thread is "
         "enumerated for a fixed set of 2-thread programs (thorough: every pair of preemptions for the smallest "
@@ -54,6 +55,7 @@ BAD_TEXT = json.dumps({"directed": False, "multigraph": False, "graph": {},
 GIDS = ["g0", "g1", "g2"]
 
 SEQ_ALPHABET = [["import", "g0", 0], ["import", "g0", 1], ["import", "g1", 2], ["import_bad", "g0"], ["import_bad", "g2"],
+                ["import_direct", "g2", 0],
                 ["add_node", "g0", "n1"], ["add_node", "g2", "n2"], ["clone", "g0", "g1"], ["clone", "g2", "g0"],
                 ["delete", "g0"], ["delete_imp", "g2"], ["extract", "g0"], ["extract", "g2"], ["delete_all"]]
 
@@ -93,8 +95,10 @@ _gid = st.sampled_from(GIDS)
 
 @st.composite
 def _op(draw, tag):
-    k = draw(st.sampled_from(["import", "import", "import_bad", "add_node", "add_node", "add_node", "clone", "delete",
-                              "delete_imp", "extract", "delete_all"]))
+    k = draw(st.sampled_from(["import", "import", "import_bad", "import_direct", "add_node", "add_node", "add_node",
+                              "clone", "delete", "delete_imp", "extract", "delete_all"]))
+    if k == "import_direct":
+        return [k, draw(_gid), draw(st.integers(0, 2))]
     if k == "import":
         return [k, draw(_gid), draw(st.integers(0, 2))]
     if k == "import_bad":
@@ -144,6 +148,9 @@ def _do(imp, op):
     k = op[0]
     if k == "import":
         imp.import_graph_from_string(graph_string=make_text(DESCS[op[2]], "json", "int", None), graph_id=op[1])
+    elif k == "import_direct":
+        # node-link JSON whose integer node keys have a hole (as written by the library after a node was deleted)
+        imp.import_graph_from_string_direct(graph_string=make_text(DESCS[op[2]], "json", "gap", op[1]))
     elif k == "import_bad":
         imp.import_graph_from_string(graph_string=BAD_TEXT, graph_id=op[1])
     elif k == "add_node":
@@ -168,6 +175,9 @@ def _model_do(M, op, fl):
     if k == "import":
         if fl == "disjoint" and not M.empty(op[1]):
             return        # documented skip on the per-graph store
+        n, e = desc_content(DESCS[op[2]])
+        M.put_graph(op[1], n, e)
+    elif k == "import_direct":
         n, e = desc_content(DESCS[op[2]])
         M.put_graph(op[1], n, e)
     elif k == "import_bad":
